@@ -31,6 +31,17 @@ var engineAssumptions = []string{
 
 var checks = []Check{
 	{
+		ID: "C09", Title: "listeners: stop and drain always complete and release what they hold", Level: "model_checking",
+		LevelText: "stateless exploration of all schedules within bounds of the real listener on a virtual network: Serve with a bind that fails 0/1/always times, a Stop / Drain / Drain+Stop caller at every point of the listener's life, 0-2 clients, connection limit 0/1; plus arrival patterns against a limit; plus stop of the real Redis and TCP processors with idle, in-flight, silent and closed backends",
+		Technique: "preemption/delay-bounded stateless schedule exploration of the real goroutines under a controlled scheduler with virtual time and network",
+		Assumptions: engineAssumptions,
+		Jobs: []Job{
+			{Pkg: "proc", Scenarios: []string{"C09/listener"}, Shards: 16, QuickS: 80, ThoroughS: 600},
+			{Pkg: "proc", Scenarios: []string{"C09/limit"}, Shards: 8, QuickS: 60, ThoroughS: 300},
+			{Pkg: "proc/redis", Scenarios: []string{"C09/redis-stop"}, Shards: 16, QuickS: 80, ThoroughS: 600},
+		},
+	},
+	{
 		ID: "C11", Title: "no byte sequence from a client or a backend can crash or wedge the proxy", Level: "exploration",
 		LevelText: "bounded-exhaustive input enumeration through the real parsers and handlers: every byte string over a 12-symbol RESP alphabet up to length 6/7 through decoder + dispatch, every supported command x argument shapes, every length-field boundary x truncation, nesting depths up to 8e6 and nested maximum-length arrays in isolated child processes (fatal errors and memory are observed from outside), every MOVED/ASK/CLUSTERDOWN text shape through the full stack, every CLUSTER NODES text of <= 2 lines from field alphabets under both map orders, every SCAN reply shape, and each crash family end to end with a second well-behaved connection",
 		Technique: "bounded-exhaustive input enumeration on the real code (process-isolated for fatal inputs) + schedule exploration of the end-to-end cases",
